@@ -58,28 +58,56 @@ func applyEdits(src []byte, edits []textEdit) ([]byte, error) {
 }
 
 type inlineCallee struct {
-	fn   *types.Func
-	decl *ast.FuncDecl
-	file *ast.File
-	src  []byte
+	fn       *types.Func
+	lit      *ast.FuncLit // a function literal bound once to a local variable (decl is nil then)
+	litVar   *types.Var
+	decl     *ast.FuncDecl
+	file     *ast.File
+	src      []byte
+	tailOnly bool // has defer/recover: only a call in tail position of its caller runs them at the same moment
+}
+
+func (ci *inlineCallee) ftype() *ast.FuncType {
+	if ci.lit != nil {
+		return ci.lit.Type
+	}
+	return ci.decl.Type
+}
+
+func (ci *inlineCallee) body() *ast.BlockStmt {
+	if ci.lit != nil {
+		return ci.lit.Body
+	}
+	return ci.decl.Body
+}
+
+func (ci *inlineCallee) node() ast.Node {
+	if ci.lit != nil {
+		return ci.lit
+	}
+	return ci.decl
 }
 
 type inliner struct {
-	p       *Program
-	pk      *packages.Package
-	src     map[string][]byte // file name -> bytes of this round's starting snapshot
-	callees map[*types.Func]*inlineCallee
-	sites   map[*types.Func]int // static call sites per callee
-	seq     int
-	round   int
-	only    func(callee *types.Func, caller *ast.FuncDecl) bool
-	edits   map[string][]textEdit
-	imports map[string]map[string]string // file -> name -> path to add
-	N       int
-	Deleted int
-	Skipped map[string]int
-	inlined map[*types.Func]int
-	valRefs map[*types.Func]bool // referenced other than as the function of a call
+	p          *Program
+	pk         *packages.Package
+	src        map[string][]byte // file name -> bytes of this round's starting snapshot
+	callees    map[*types.Func]*inlineCallee
+	closures   map[*types.Var]*inlineCallee
+	onlyCaller func(caller *ast.FuncDecl) bool
+	sites      map[*types.Func]int // static call sites per callee
+	seq        int
+	round      int
+	only       func(callee *types.Func, caller *ast.FuncDecl) bool
+	edits      map[string][]textEdit
+	imports    map[string]map[string]string // file -> name -> path to add
+	N          int
+	Deleted    int
+	Skipped    map[string]int
+	tail       bool                      // the statement being looked at is the last one of a function body
+	consumed   map[string][][2]token.Pos // source ranges replaced as a whole: statements inside them are left alone
+	inlined    map[*types.Func]int
+	valRefs    map[*types.Func]bool // referenced other than as the function of a call
 }
 
 func (p *Program) rootPackage() *packages.Package {
@@ -107,12 +135,16 @@ func (p *Program) inlineRound(round int, only func(callee *types.Func, caller *a
 }
 
 func (p *Program) inlineRoundD(round int, only func(callee *types.Func, caller *ast.FuncDecl) bool, noDelete bool) (map[string][]byte, int, error) {
+	return p.inlineRoundC(round, only, nil, noDelete)
+}
+
+func (p *Program) inlineRoundC(round int, only func(callee *types.Func, caller *ast.FuncDecl) bool, onlyCaller func(caller *ast.FuncDecl) bool, noDelete bool) (map[string][]byte, int, error) {
 	pk := p.rootPackage()
 	if pk == nil {
 		return nil, 0, fmt.Errorf("root package not loaded")
 	}
-	in := &inliner{p: p, pk: pk, src: map[string][]byte{}, callees: map[*types.Func]*inlineCallee{}, sites: map[*types.Func]int{}, round: round, only: only,
-		edits: map[string][]textEdit{}, imports: map[string]map[string]string{}, Skipped: map[string]int{}, inlined: map[*types.Func]int{}, valRefs: map[*types.Func]bool{}}
+	in := &inliner{p: p, pk: pk, src: map[string][]byte{}, callees: map[*types.Func]*inlineCallee{}, closures: map[*types.Var]*inlineCallee{}, sites: map[*types.Func]int{}, round: round, only: only,
+		onlyCaller: onlyCaller, edits: map[string][]textEdit{}, imports: map[string]map[string]string{}, Skipped: map[string]int{}, inlined: map[*types.Func]int{}, valRefs: map[*types.Func]bool{}, consumed: map[string][][2]token.Pos{}}
 	for _, f := range pk.Syntax {
 		name := p.Fset.Position(f.Pos()).Filename
 		if strings.HasSuffix(name, "_test.go") {
@@ -164,6 +196,9 @@ func (p *Program) inlineRoundD(round int, only func(callee *types.Func, caller *
 			in.edits[name] = append(kept, textEdit{so, eo, blank})
 			in.Deleted++
 		}
+	}
+	if os.Getenv("RESTCHECK_TRACE_FORMS") != "" {
+		fmt.Fprintf(os.Stderr, "inline round %d: %d inlined, %d dead helpers dropped, skipped: %v\n", round, in.N, in.Deleted, in.Skipped)
 	}
 	overlay := map[string][]byte{}
 	for k, v := range p.Overlay {
@@ -276,10 +311,14 @@ func (in *inliner) collectCallees() {
 				continue
 			}
 			bad := false
+			tailOnly := false
 			ast.Inspect(fd.Body, func(n ast.Node) bool {
 				switch x := n.(type) {
-				case *ast.DeferStmt, *ast.GoStmt:
-					bad = true
+				case *ast.FuncLit:
+					// defers of a nested function literal are its own; recover() there is not ours either
+					return false
+				case *ast.DeferStmt:
+					tailOnly = true
 				case *ast.BranchStmt:
 					if x.Tok == token.GOTO {
 						bad = true
@@ -287,7 +326,7 @@ func (in *inliner) collectCallees() {
 				case *ast.CallExpr:
 					if id, ok := ast.Unparen(x.Fun).(*ast.Ident); ok {
 						if id.Name == "recover" {
-							bad = true
+							tailOnly = true
 						}
 						if info.Uses[id] == types.Object(obj) {
 							bad = true // direct recursion
@@ -302,9 +341,25 @@ func (in *inliner) collectCallees() {
 			if bad {
 				continue
 			}
-			in.callees[obj] = &inlineCallee{fn: obj, decl: fd, file: f, src: src}
+			// a deferred closure may still call recover or the function itself: look into literals for recursion only
+			ast.Inspect(fd.Body, func(n ast.Node) bool {
+				if x, ok := n.(*ast.CallExpr); ok {
+					if id, ok := ast.Unparen(x.Fun).(*ast.Ident); ok && info.Uses[id] == types.Object(obj) {
+						bad = true
+					}
+					if se, ok := ast.Unparen(x.Fun).(*ast.SelectorExpr); ok && info.Uses[se.Sel] == types.Object(obj) {
+						bad = true
+					}
+				}
+				return !bad
+			})
+			if bad {
+				continue
+			}
+			in.callees[obj] = &inlineCallee{fn: obj, decl: fd, file: f, src: src, tailOnly: tailOnly}
 		}
 	}
+	in.collectClosures()
 	// call-site counts, and references that are not calls
 	callFun := map[*ast.Ident]bool{}
 	for _, f := range in.pk.Syntax {
@@ -330,6 +385,133 @@ func (in *inliner) collectCallees() {
 	}
 }
 
+// collectClosures: local variables bound exactly once to a function literal, never reassigned and never used other
+// than being called (`keep := func(r *Route) bool {...}` ... `keep(each)`). Their calls can be replaced by the
+// literal's body: the variables the literal captures are the very variables visible at the call.
+func (in *inliner) collectClosures() {
+	info := in.pk.TypesInfo
+	for _, f := range in.pk.Syntax {
+		name := in.p.Fset.Position(f.Pos()).Filename
+		src, ok := in.src[name]
+		if !ok {
+			continue
+		}
+		cand := map[*types.Var]*ast.FuncLit{}
+		bad := map[*types.Var]bool{}
+		ast.Inspect(f, func(n ast.Node) bool {
+			switch x := n.(type) {
+			case *ast.AssignStmt:
+				if x.Tok == token.DEFINE && len(x.Lhs) == 1 && len(x.Rhs) == 1 {
+					if id, ok := x.Lhs[0].(*ast.Ident); ok {
+						if fl, ok := ast.Unparen(x.Rhs[0]).(*ast.FuncLit); ok {
+							if v, ok := info.Defs[id].(*types.Var); ok {
+								cand[v] = fl
+								return true
+							}
+						}
+					}
+				}
+				for _, l := range x.Lhs {
+					if id, ok := l.(*ast.Ident); ok {
+						if v, ok := info.Uses[id].(*types.Var); ok {
+							bad[v] = true
+						}
+					}
+				}
+			case *ast.ValueSpec:
+				if len(x.Names) == 1 && len(x.Values) == 1 {
+					if fl, ok := ast.Unparen(x.Values[0]).(*ast.FuncLit); ok {
+						if v, ok := info.Defs[x.Names[0]].(*types.Var); ok && v.Parent() != in.pk.Types.Scope() {
+							cand[v] = fl
+						}
+					}
+				}
+			}
+			return true
+		})
+		// every use must be the function of a call
+		callFun := map[*ast.Ident]bool{}
+		ast.Inspect(f, func(n ast.Node) bool {
+			if call, ok := n.(*ast.CallExpr); ok {
+				if id, ok := ast.Unparen(call.Fun).(*ast.Ident); ok {
+					callFun[id] = true
+				}
+			}
+			return true
+		})
+		// `_ = x` (as the inliner itself writes after a binding) is not a use
+		blankUse := map[*ast.Ident]bool{}
+		ast.Inspect(f, func(n ast.Node) bool {
+			if as, ok := n.(*ast.AssignStmt); ok && as.Tok == token.ASSIGN && len(as.Lhs) == len(as.Rhs) {
+				for i, l := range as.Lhs {
+					if lid, ok := l.(*ast.Ident); ok && lid.Name == "_" {
+						if rid, ok := ast.Unparen(as.Rhs[i]).(*ast.Ident); ok {
+							blankUse[rid] = true
+						}
+					}
+				}
+			}
+			return true
+		})
+		for id, obj := range info.Uses {
+			if v, ok := obj.(*types.Var); ok && cand[v] != nil && !callFun[id] && !blankUse[id] {
+				bad[v] = true
+			}
+		}
+		for v, fl := range cand {
+			if bad[v] {
+				continue
+			}
+			sig, ok := info.TypeOf(fl).(*types.Signature)
+			if !ok || sig.Variadic() {
+				continue
+			}
+			unfit := false
+			ast.Inspect(fl.Body, func(n ast.Node) bool {
+				switch x := n.(type) {
+				case *ast.FuncLit:
+					return false
+				case *ast.DeferStmt:
+					unfit = true
+				case *ast.BranchStmt:
+					if x.Tok == token.GOTO {
+						unfit = true
+					}
+				case *ast.CallExpr:
+					if id, ok := ast.Unparen(x.Fun).(*ast.Ident); ok {
+						if id.Name == "recover" || info.Uses[id] == types.Object(v) {
+							unfit = true
+						}
+					}
+				}
+				return !unfit
+			})
+			if unfit {
+				continue
+			}
+			in.closures[v] = &inlineCallee{lit: fl, litVar: v, file: f, src: src}
+		}
+	}
+}
+
+// calleeOf: the inlinable callee of a call - a declared function or method, or a once-bound function literal.
+func (in *inliner) calleeOf(call *ast.CallExpr, caller *ast.FuncDecl) *inlineCallee {
+	if fn := in.staticCallee(call); fn != nil {
+		if ci := in.callees[fn]; ci != nil && (in.only == nil || in.only(fn, caller)) {
+			return ci
+		}
+		return nil
+	}
+	if id, ok := ast.Unparen(call.Fun).(*ast.Ident); ok {
+		if v, ok := in.pk.TypesInfo.Uses[id].(*types.Var); ok {
+			if ci := in.closures[v]; ci != nil && (in.onlyCaller == nil || in.onlyCaller(caller)) {
+				return ci
+			}
+		}
+	}
+	return nil
+}
+
 func (in *inliner) staticCallee(call *ast.CallExpr) *types.Func {
 	info := in.pk.TypesInfo
 	switch fun := ast.Unparen(call.Fun).(type) {
@@ -349,28 +531,34 @@ func (in *inliner) staticCallee(call *ast.CallExpr) *types.Func {
 	return nil
 }
 
-// walkBody visits every statement list of body (not descending into function literals' parents twice).
+// walkBody visits every statement list of body. The last statement of a function body (of the declaration or of a
+// function literal) is in tail position.
 func (in *inliner) walkBody(f *ast.File, fname string, caller *ast.FuncDecl, body *ast.BlockStmt) {
-	var lists func(n ast.Node)
-	handle := func(list []ast.Stmt) {
-		for _, s := range list {
+	funcBodies := map[*ast.BlockStmt]bool{body: true}
+	ast.Inspect(body, func(m ast.Node) bool {
+		if fl, ok := m.(*ast.FuncLit); ok {
+			funcBodies[fl.Body] = true
+		}
+		return true
+	})
+	handle := func(list []ast.Stmt, isFuncBody bool) {
+		for k, s := range list {
+			in.tail = isFuncBody && k == len(list)-1
 			in.tryStmt(f, fname, caller, s)
 		}
+		in.tail = false
 	}
-	lists = func(n ast.Node) {
-		ast.Inspect(n, func(m ast.Node) bool {
-			switch x := m.(type) {
-			case *ast.BlockStmt:
-				handle(x.List)
-			case *ast.CaseClause:
-				handle(x.Body)
-			case *ast.CommClause:
-				handle(x.Body)
-			}
-			return true
-		})
-	}
-	lists(body)
+	ast.Inspect(body, func(m ast.Node) bool {
+		switch x := m.(type) {
+		case *ast.BlockStmt:
+			handle(x.List, funcBodies[x])
+		case *ast.CaseClause:
+			handle(x.Body, false)
+		case *ast.CommClause:
+			handle(x.Body, false)
+		}
+		return true
+	})
 }
 
 func isPureBuiltin(name string) bool {
@@ -453,11 +641,9 @@ func (in *inliner) findCall(e ast.Expr, caller *ast.FuncDecl) (call *ast.CallExp
 				return nil, false
 			}
 		}
-		if fn := in.staticCallee(x); fn != nil {
-			if ci := in.callees[fn]; ci != nil && (in.only == nil || in.only(fn, caller)) {
-				// receiver expression and arguments are evaluated as part of the hoisted bindings
-				return x, false
-			}
+		if in.calleeOf(x, caller) != nil {
+			// receiver expression and arguments are evaluated as part of the hoisted bindings
+			return x, false
 		}
 		// some other call: look inside its operands first (they are evaluated before it)
 		var ops []ast.Expr
@@ -483,7 +669,7 @@ func (in *inliner) containsEligible(e ast.Expr, caller *ast.FuncDecl) bool {
 			return false
 		}
 		if call, ok := n.(*ast.CallExpr); ok {
-			if fn := in.staticCallee(call); fn != nil && in.callees[fn] != nil && (in.only == nil || in.only(fn, caller)) {
+			if in.calleeOf(call, caller) != nil {
 				found = true
 			}
 		}
@@ -555,7 +741,13 @@ func (in *inliner) tryStmt(f *ast.File, fname string, caller *ast.FuncDecl, s as
 		}
 		inner = ls.Stmt
 	}
+	for _, rg := range in.consumed[fname] {
+		if s.Pos() >= rg[0] && s.End() <= rg[1] {
+			return
+		}
+	}
 	if in.splitShortCircuit(fname, caller, inner) {
+		in.consumed[fname] = append(in.consumed[fname], [2]token.Pos{inner.Pos(), inner.End()})
 		return
 	}
 	var call *ast.CallExpr
@@ -671,15 +863,32 @@ func (in *inliner) skip(why string) { in.Skipped[why]++ }
 func (in *inliner) inlineAt(f *ast.File, fname string, caller *ast.FuncDecl, insertAt, stmt ast.Stmt, call *ast.CallExpr, multiOK, dropStmt bool) {
 	info := in.pk.TypesInfo
 	fset := in.p.Fset
-	fn := in.staticCallee(call)
-	ci := in.callees[fn]
+	ci := in.calleeOf(call, caller)
 	if ci == nil {
 		return
 	}
-	if info.Defs[caller.Name] == types.Object(fn) {
+	fn := ci.fn
+	if fn != nil && info.Defs[caller.Name] == types.Object(fn) {
 		return
 	}
-	sig := fn.Type().(*types.Signature)
+	if ci.lit != nil && call.Pos() >= ci.lit.Pos() && call.End() <= ci.lit.End() {
+		return
+	}
+	if ci.tailOnly {
+		// deferred calls of the callee run when the caller returns: the same moment only if nothing follows the call
+		_, isExpr := stmt.(*ast.ExprStmt)
+		_, isRet := stmt.(*ast.ReturnStmt)
+		if !in.tail || !(isExpr && dropStmt || isRet && multiOK) {
+			in.skip("callee with defer not in tail position")
+			return
+		}
+	}
+	var sig *types.Signature
+	if fn != nil {
+		sig = fn.Type().(*types.Signature)
+	} else {
+		sig = info.TypeOf(ci.lit).(*types.Signature)
+	}
 	nres := sig.Results().Len()
 	if nres > 1 && !multiOK {
 		in.skip("multi-value call inside an expression")
@@ -734,9 +943,9 @@ func (in *inliner) inlineAt(f *ast.File, fname string, caller *ast.FuncDecl, ins
 	inner := pkgScope.Innermost(call.Pos())
 	rename := map[types.Object]string{}
 	var bodyEdits []textEdit
-	bodyStart := off(ci.decl.Body.Lbrace) + 1
-	bodyEnd := off(ci.decl.Body.Rbrace)
-	declStart, declEnd := ci.decl.Pos(), ci.decl.End()
+	bodyStart := off(ci.body().Lbrace) + 1
+	bodyEnd := off(ci.body().Rbrace)
+	declStart, declEnd := ci.node().Pos(), ci.node().End()
 	isLocal := func(o types.Object) bool {
 		if o == nil || o.Pos() < declStart || o.Pos() >= declEnd {
 			return false
@@ -751,6 +960,7 @@ func (in *inliner) inlineAt(f *ast.File, fname string, caller *ast.FuncDecl, ins
 	}
 	// callee file imports by name
 	captureOK := true
+	captureWhy := ""
 	needImports := map[string]string{}
 	callerImports := map[string]string{}
 	for _, is := range f.Imports {
@@ -766,7 +976,7 @@ func (in *inliner) inlineAt(f *ast.File, fname string, caller *ast.FuncDecl, ins
 	for n, pth := range in.imports[fname] {
 		callerImports[n] = pth
 	}
-	ast.Inspect(ci.decl, func(n ast.Node) bool {
+	ast.Inspect(ci.node(), func(n ast.Node) bool {
 		id, ok := n.(*ast.Ident)
 		if !ok || id.Name == "_" {
 			return true
@@ -784,12 +994,16 @@ func (in *inliner) inlineAt(f *ast.File, fname string, caller *ast.FuncDecl, ins
 			}
 			return true
 		}
+		if _, isPkgName := obj.(*types.PkgName); !isPkgName && obj.Pkg() != nil && obj.Pkg() != in.pk.Types {
+			return true // reached through a qualified identifier or a selector
+		}
 		switch o := obj.(type) {
 		case *types.PkgName:
 			path := o.Imported().Path()
 			if p2, ok := callerImports[o.Name()]; ok {
 				if p2 != path {
 					captureOK = false
+					captureWhy = "import name " + o.Name() + " is " + p2 + " here, " + path + " there"
 				}
 			} else {
 				needImports[o.Name()] = path
@@ -798,24 +1012,43 @@ func (in *inliner) inlineAt(f *ast.File, fname string, caller *ast.FuncDecl, ins
 			if _, o2 := inner.LookupParent(o.Name(), call.Pos()); o2 != nil {
 				if _, isPkg := o2.(*types.PkgName); !isPkg {
 					captureOK = false
+					captureWhy = "import name " + o.Name() + " shadowed"
 				}
 			}
+		case *types.Var:
+			if o.IsField() {
+				return true
+			}
+			if _, o2 := inner.LookupParent(obj.Name(), call.Pos()); o2 != obj {
+				captureOK = false
+				captureWhy = "var " + obj.Name()
+			}
+		case *types.Func:
+			if s2, ok := o.Type().(*types.Signature); ok && s2.Recv() != nil {
+				return true
+			}
+			if _, o2 := inner.LookupParent(obj.Name(), call.Pos()); o2 != obj {
+				captureOK = false
+			}
+		case *types.Label:
 		default:
-			if obj.Parent() == pkgScope || obj.Parent() == types.Universe {
-				if _, o2 := inner.LookupParent(obj.Name(), call.Pos()); o2 != obj {
-					captureOK = false
-				}
+			if _, o2 := inner.LookupParent(obj.Name(), call.Pos()); o2 != obj {
+				captureOK = false
+				captureWhy = fmt.Sprintf("%T %s", obj, obj.Name())
 			}
 		}
 		return true
 	})
 	if !captureOK {
+		if os.Getenv("RESTCHECK_TRACE_FORMS") == "2" {
+			fmt.Fprintf(os.Stderr, "capture: %s at %s\n", captureWhy, fset.Position(call.Pos()))
+		}
 		in.skip("a name used by the callee is shadowed at the call site")
 		in.seq--
 		return
 	}
 	// implicit objects of type switches
-	ast.Inspect(ci.decl.Body, func(n ast.Node) bool {
+	ast.Inspect(ci.body(), func(n ast.Node) bool {
 		ts, ok := n.(*ast.TypeSwitchStmt)
 		if !ok {
 			return true
@@ -838,7 +1071,7 @@ func (in *inliner) inlineAt(f *ast.File, fname string, caller *ast.FuncDecl, ins
 		}
 		return true
 	})
-	ast.Inspect(ci.decl.Body, func(n ast.Node) bool {
+	ast.Inspect(ci.body(), func(n ast.Node) bool {
 		id, ok := n.(*ast.Ident)
 		if !ok {
 			return true
@@ -870,9 +1103,9 @@ func (in *inliner) inlineAt(f *ast.File, fname string, caller *ast.FuncDecl, ins
 	}
 	// results
 	var resNames, resTypes []string
-	if ci.decl.Type.Results != nil {
+	if ci.ftype().Results != nil {
 		k := 0
-		for _, fld := range ci.decl.Type.Results.List {
+		for _, fld := range ci.ftype().Results.List {
 			if len(fld.Names) == 0 {
 				resNames = append(resNames, "res"+strconv.Itoa(k)+sfx)
 				resTypes = append(resTypes, ctext(fld.Type))
@@ -960,7 +1193,7 @@ func (in *inliner) inlineAt(f *ast.File, fname string, caller *ast.FuncDecl, ins
 		}
 	}
 	k := 0
-	for _, fld := range ci.decl.Type.Params.List {
+	for _, fld := range ci.ftype().Params.List {
 		names := fld.Names
 		if len(names) == 0 {
 			sb.WriteString("var _ " + ctext(fld.Type) + " = " + text(call.Args[k]) + "\n")
@@ -1006,9 +1239,16 @@ func (in *inliner) inlineAt(f *ast.File, fname string, caller *ast.FuncDecl, ins
 		}
 	}
 	in.N++
-	in.inlined[fn]++
+	if fn != nil {
+		in.inlined[fn]++
+	}
+	if dropStmt {
+		in.consumed[fname] = append(in.consumed[fname], [2]token.Pos{stmt.Pos(), stmt.End()})
+	} else {
+		in.consumed[fname] = append(in.consumed[fname], [2]token.Pos{call.Pos(), call.End()})
+	}
 	// the copied body brings its own calls: new call sites of those callees
-	ast.Inspect(ci.decl.Body, func(n ast.Node) bool {
+	ast.Inspect(ci.body(), func(n ast.Node) bool {
 		if c2, ok := n.(*ast.CallExpr); ok {
 			if g := in.staticCallee(c2); g != nil {
 				in.sites[g]++
@@ -1016,11 +1256,6 @@ func (in *inliner) inlineAt(f *ast.File, fname string, caller *ast.FuncDecl, ins
 		}
 		return true
 	})
-	for id, obj := range info.Uses {
-		if g, ok := obj.(*types.Func); ok && id.Pos() >= ci.decl.Body.Pos() && id.End() <= ci.decl.Body.End() {
-			_ = g // value references inside the body are already recorded in valRefs
-		}
-	}
 }
 
 // ---------------------------------------------------------------------------
@@ -1141,7 +1376,7 @@ func (p *Program) inlineRoundKind(round int, kind string, targets []string, noDe
 		for _, t := range targets {
 			want[t] = true
 		}
-		return p.inlineRoundD(round, func(_ *types.Func, caller *ast.FuncDecl) bool { return want[declDisplayName(caller)] }, noDelete)
+		return p.inlineRoundC(round, func(_ *types.Func, caller *ast.FuncDecl) bool { return want[declDisplayName(caller)] }, func(caller *ast.FuncDecl) bool { return want[declDisplayName(caller)] }, noDelete)
 	case "callee":
 		// the calls OF the named functions, wherever they are
 		want := map[string]bool{}
